@@ -180,3 +180,26 @@ class FaultSend(Suite):
     matchers = {
         "F3": lambda op, impl, model: impl.get("send") == "blocked" and len(op["reqs"]) > 132,
     }
+
+
+class FaultResync(FaultSync):
+    """C01: 'leftovers of an aborted run' as prior destination content — an aborted transfer followed by a fault-free one must converge"""
+    name = "faultresync"
+    rule = ("a transfer aborted by a stream fault / cancellation / SIGKILL at a sampled position, then a fault-free transfer of the same source into the "
+            "leftovers; oracle: the second transfer succeeds and the destination equals the view (C01 spec); non-trivial = distinct (tree, fault)")
+
+    def gen(self, rng, tier):
+        n = {"quick": 200, "thorough": 5000, "search": 80}[tier]
+        ops = []
+        while len(ops) < n:
+            tree = gen.disk_tree(rng, rng.choice([5, 12, 30]), 3, types=("dir", "file", "file", "symlink", "hardlink", "fifo"),
+                                 file_sizes=(1, 5, 100, 32768, 40000, 70000), xattrs=False)
+            if not tree:
+                continue
+            dst = [] if rng.random() < 0.7 else gen.mutate_disk_tree(rng, tree)
+            nent = len(tree)
+            kind = rng.choice(["recvR", "sendS", "recvS", "sendR", "cancel", "kill"])
+            f = {"kind": kind, "at": rng.randint(1, 3 * nent + 6)}
+            ops.append({"op": "fault", "src": {"kind": "mem", "tree": tree}, "dst": dst, "fault": f,
+                        "opt": {"notify": True, "cap": rng.choice([0, 1, 4, 32]), "seed": rng.randrange(1 << 30)}})
+        return ops
